@@ -450,6 +450,23 @@ impl<'p> Callbacks<'p> for SimCallbacks<'p> {
     }
 }
 
+/// Renders a value through `Value::kind()` (panics with "thunk not evaluated" if it is not deep).
+pub fn walk_value(v: &Value<'_>, depth: u32) -> String {
+    use rsjsonnet_lang::program::ValueKind;
+    if depth > 200 {
+        return "…".into();
+    }
+    match v.kind() {
+        ValueKind::Null => "null".into(),
+        ValueKind::Bool(b) => b.to_string(),
+        ValueKind::Number(n) => format!("{n}"),
+        ValueKind::String(s) => format!("{s:?}"),
+        ValueKind::Array(a) => format!("[{}]", a.iter().map(|x| walk_value(x, depth + 1)).collect::<Vec<_>>().join(",")),
+        ValueKind::Object(o) => format!("{{{}}}", o.iter().map(|(k, x)| format!("{:?}:{}", k.value(), walk_value(x, depth + 1))).collect::<Vec<_>>().join(",")),
+        ValueKind::Function => "<function>".into(),
+    }
+}
+
 pub const NATIVES: &[&str] = &["id", "fail", "gcNow", "evalOther"];
 
 // ---------------------------------------------------------------------------
@@ -699,17 +716,29 @@ impl<'p> Ctx<'p> {
         }
     }
 
-    /// eval + manifest: the comparable outcome of an evaluation request.
+    /// eval + manifest: the comparable outcome of an evaluation request. The returned value is also walked
+    /// through the embedder API (`Value::kind`), which requires it to be deeply evaluated.
     pub fn eval_out(&mut self, thunk: &Thunk<'p>) -> (Out, Option<Value<'p>>) {
         match self.eval(thunk) {
-            Ok(v) => (self.manifest(&v, false), Some(v)),
+            Ok(v) => (self.manifest_and_walk(&v), Some(v)),
             Err(o) => (o, None),
+        }
+    }
+
+    pub fn manifest_and_walk(&mut self, v: &Value<'p>) -> Out {
+        let walked = match self.caught(|_| walk_value(v, 0)) {
+            Ok(w) => w,
+            Err(p) => return p,
+        };
+        match self.manifest(v, false) {
+            Out::Ok(s) => Out::Ok(format!("{s} #kind-walk:{walked}")),
+            other => other,
         }
     }
 
     pub fn call_out(&mut self, func: &Thunk<'p>, pos: &[Thunk<'p>], named: &[(String, Thunk<'p>)]) -> (Out, Option<Value<'p>>) {
         match self.call(func, pos, named) {
-            Ok(v) => (self.manifest(&v, false), Some(v)),
+            Ok(v) => (self.manifest_and_walk(&v), Some(v)),
             Err(o) => (o, None),
         }
     }
